@@ -534,8 +534,15 @@ func build(seed uint64, profile string) *built {
 		// look-alikes (IPv4-mapped 16-byte address, IPv6-typed gateway)
 		m.Question = []dns.Question{{Name: "skip.example.", Qtype: dns.TypeA, Qclass: dns.ClassINET}}
 		m.Response = true
-		v6 := net.ParseIP("2001:db8::1")
-		mapped := net.ParseIP("192.0.2.33") // 16 bytes, IPv4-mapped
+		// 16-byte addresses the library's To4() rejects (it wants ten zero octets AND ff:ff), among them the
+		// near misses of "IPv4-mapped"; and genuinely mapped ones
+		ra := vlib.NewR(seed*31 + 7) // its own stream: the message SHAPES of earlier seeds (and their recorded witnesses) stay as they were
+		v6 := net.ParseIP(vlib.Pick(ra, []string{"2001:db8::1", "::1", "::", "2001:db8::ffff:c000:201", "1::ffff:192.0.2.1",
+			"::fffe:c000:201", "::ffff:0:c000:201", "ff02::ffff:ffff", "0:0:0:0:0:1:c000:201"}))
+		mapped := net.ParseIP(vlib.Pick(ra, []string{"192.0.2.33", "::ffff:c000:201", "::ffff:0.0.0.0"})) // 16 bytes, IPv4-mapped
+		if v6.To4() != nil || len(mapped) != 16 || mapped.To4() == nil {
+			panic("skipwrite address table")
+		}
 		h := func(t uint16) dns.RR_Header {
 			return dns.RR_Header{Name: "skip.example.", Rrtype: t, Class: dns.ClassINET, Ttl: 60}
 		}
@@ -574,6 +581,45 @@ func build(seed uint64, profile string) *built {
 			g.put(0, g.rr(g.name()), "a")
 		}
 		if r.Chance(1, 3) {
+			g.newOPT(2)
+		}
+	case "signed":
+		// a signed answer: the question's own RRset (no glue, no CNAME chase) plus RRSIG / NSEC / NSEC3 in
+		// answer and authority — what cache admission prepares a DNSSEC-stripped DO=0 body for; sized on
+		// both sides of the pooled buffer AFTER stripping
+		owner := vlib.Pick(r, []string{"signed.example.", "a.long-label-for-a-signed-zone.example.org.", "."})
+		qt := vlib.Pick(r, []uint16{dns.TypeTXT, dns.TypeTXT, dns.TypeA, dns.TypeRRSIG})
+		m.Question = []dns.Question{{Name: owner, Qtype: qt, Qclass: dns.ClassINET}}
+		m.Response = true
+		m.AuthenticatedData = r.Bool()
+		m.Rcode = vlib.Pick(r, []int{0, 0, 0, 3})
+		m.Compress = r.Chance(3, 4)
+		n := vlib.Pick(r, []int{1, 3, 20, 50, 56, 57, 58, 60, 120})
+		for i := 0; i < n; i++ {
+			if qt == dns.TypeA {
+				g.put(0, &dns.A{Hdr: dns.RR_Header{Name: owner, Rrtype: dns.TypeA, Class: dns.ClassINET, Ttl: 300}, A: net.IPv4(192, 0, 2, byte(i)).To4()}, "a")
+			} else {
+				g.put(0, &dns.TXT{Hdr: dns.RR_Header{Name: owner, Rrtype: dns.TypeTXT, Class: dns.ClassINET, Ttl: 300}, Txt: []string{strings.Repeat("s", 64-i%3)}}, "a")
+			}
+		}
+		sig := func(covered uint16) *dns.RRSIG {
+			return &dns.RRSIG{Hdr: dns.RR_Header{Name: owner, Rrtype: dns.TypeRRSIG, Class: dns.ClassINET, Ttl: 300}, TypeCovered: covered, Algorithm: 13, Labels: 2,
+				OrigTtl: 300, Expiration: 1800000000, Inception: 1700000000, KeyTag: uint16(r.U64()), SignerName: "example.", Signature: b64(r, 64)}
+		}
+		if r.Chance(5, 6) {
+			g.put(0, sig(qt), "a")
+		}
+		if r.Chance(1, 2) {
+			g.put(1, &dns.NSEC{Hdr: dns.RR_Header{Name: owner, Rrtype: dns.TypeNSEC, Class: dns.ClassINET, Ttl: 60}, NextDomain: "z." + strings.TrimPrefix(owner, "."), TypeBitMap: []uint16{dns.TypeA, dns.TypeTXT, dns.TypeRRSIG, dns.TypeNSEC}}, "a")
+			g.put(1, sig(dns.TypeNSEC), "a")
+		}
+		if r.Chance(1, 4) {
+			g.put(1, &dns.SOA{Hdr: dns.RR_Header{Name: "example.", Rrtype: dns.TypeSOA, Class: dns.ClassINET, Ttl: 60}, Ns: "ns.example.", Mbox: "h.example.", Serial: 1, Refresh: 2, Retry: 3, Expire: 4, Minttl: 5}, "a")
+		}
+		if r.Chance(1, 6) { // glue: the stripped body is then still servable, with its additional record
+			g.put(2, &dns.A{Hdr: dns.RR_Header{Name: "ns.example.", Rrtype: dns.TypeA, Class: dns.ClassINET, Ttl: 60}, A: ip4(r)}, "a")
+		}
+		if r.Chance(1, 2) {
 			g.newOPT(2)
 		}
 	case "cdn":
